@@ -382,6 +382,37 @@ void h_run_dump(void)
   }
 }
 
+
+/* C08  The fast decoding path of retrieve() reads input words without an end-of-buffer test (NEED_FAST).  Its guard (extracted
+   verbatim) must leave enough words for a whole group: GROUP_SIZE codes of at most MAX_CODE_LENGTH bits each, starting from any
+   number of buffered bits.  The loop skeleton is abstracted to the two statements of the real loop that touch the input -- the real
+   macros NEED_FAST() and DUMP(k) with 1 <= k <= MAX_CODE_LENGTH (k is a code length: decode.prefix_decode.*) -- and the input
+   buffer ends exactly at `limit`, so any over-read is an out-of-bounds dereference. */
+void h_fast_path_guard(void)
+{
+  V_IN(unsigned, avail);
+  V_IN(unsigned, w0);
+  V_IN(uint64_t, v0);
+  unsigned j, w; uint64_t v; const uint32_t *next, *limit;
+  V_ASSUME(avail <= 40 && w0 <= 63);
+  uint32_t *words = malloc((size_t)(avail ? avail : 1) * sizeof(uint32_t)); V_ASSUME(words != 0);
+  next = words; limit = words + avail; w = w0; v = v0;
+  int fast = 0;
+#include "src/extract/fast_path_guard.inc"
+    fast = 1;
+  }
+  if (fast) {
+    for (j = 0; j < GROUP_SIZE; j++) {
+      unsigned k;
+      NEED_FAST();
+      V_ASSUME(k >= 1 && k <= MAX_CODE_LENGTH);
+      DUMP(k);
+    }
+    V_ASSERT(next <= limit, "fast path: a whole group of 50 codes of up to 20 bits never consumes more words than the guard guarantees");
+    V_CANARY("fast path taken");
+  } else V_CANARY("slow path taken");
+}
+
 #ifdef VERIF_REPLAY
 int main(void) { HARNESS(); puts("REPLAY-PASS"); return 0; }
 #endif
